@@ -9,7 +9,7 @@ ASSUMPTIONS = ['all inputs of this check are enumerated concretely per query (bo
 
 def queries(tier, kfs):
     qs = []
-    ns = (4,) if tier == 'quick' else (2, 3, 4, 5)
+    ns = (4,) if tier == 'quick' else (3, 4, 5)
     for n in ns:
         for left in range(4):
             for right in range(4):
